@@ -51,12 +51,19 @@ func suiteV17(c *vctx) {
 		"score >=3", "score>= 3", "score >= 3 extra", "", "score", "score >=", ">= 3", "SCORE >= 3", "Score >= 3", "entropy >= -1",
 		"entropy >= 1.5", "entropy >= 18446744073709551615", "entropy >= 18446744073709551616", "time >= 0", "  score   >=   2  ",
 		"score\t>=\t2", "score\n>=\n1", "score >= 03", "score >= +3", "score >= 0x3", "time >= 1e6", "strength >= 3", "score >= three",
-		"score >= 3 ", "entropy >= 00", "time >= 1_000", "score >= 4294967296", "score ≥ 3"}
+		"score >= 3 ", "entropy >= 00", "time >= 1_000", "score >= 4294967296", "score ≥ 3", "score\u00a0>=\u20003", "\u3000entropy\u2028>=\u202940\u0085", "score\u200b>= 3", "score >=\xa03"}
 	kinds := []string{"score", "entropy", "time", "Score", "scor", "strength", ""}
 	ops := []string{">=", ">", "=>", "==", "<=", "", "> ="}
 	for k := 0; k < 460; k++ {
 		parts := []string{kinds[r.Intn(len(kinds))], ops[r.Intn(len(ops))], []string{"0", "1", "3", "4", "5", "17", "40", "-1", "x", "", "1.0", "18446744073709551615", "99999999999999999999"}[r.Intn(13)]}
 		seps := []string{" ", "  ", "\t", "", " \n ", "\r\n"}
+		if r.Intn(3) == 0 {
+			// strings.Fields splits at Unicode white space too (and decodes invalid UTF-8 byte by byte):
+			// every white-space rune, their neighbours that are not, truncated and overlong spellings
+			seps = []string{"\u0085", "\u00a0", "\u1680", "\u2000", "\u2005", "\u200a", "\u2028", "\u2029", "\u202f", "\u205f", "\u3000",
+				"\u200b", "\u00a1", "\u0084", "\u180e", "\u2027", "\u202e", "\u2060", "\u3001", "\ufeff", "\xc2", "\xe2\x80", "\xe3\x80", "\xa0",
+				"\x85", "\xc0\xa0", "\xe0\x80\xa0", "\xe2\x80\x80\x80", "\xc2\xc2\xa0", "\xe2\xe2\x80\xa8", "\x1c", "\x1f", "\v", "\f", " \u3000 "}
+		}
 		s := strings.Repeat(" ", r.Intn(2)) + parts[0] + seps[r.Intn(len(seps))] + parts[1] + seps[r.Intn(len(seps))] + parts[2] + strings.Repeat(" ", r.Intn(2))
 		if r.Intn(6) == 0 {
 			s += " " + parts[r.Intn(3)]
@@ -66,12 +73,6 @@ func suiteV17(c *vctx) {
 	for i, cond := range conds {
 		if !c.mine(i) {
 			continue
-		}
-		ascii := true
-		for _, ch := range []byte(cond) {
-			if ch >= 0x80 {
-				ascii = false
-			}
 		}
 		for _, ty := range []string{"zxcvbn", "", "ZXCVBN", "none", "zxcvbn "} {
 			p, err := NewPasswordPolicy(ty, cond)
@@ -96,9 +97,7 @@ func suiteV17(c *vctx) {
 					res = fmt.Sprintf("ok %s %d", kind, pp.threshold)
 				}
 			}
-			if ascii {
-				c.emit(fmt.Sprintf("pol.new %s %s", vxs(ty), vxs(cond)), res)
-			}
+			c.emit(fmt.Sprintf("pol.new %s %s", vxs(ty), vxs(cond)), res)
 			// an unparsable policy stops the agent from starting
 			if ty != "" && err != nil && i%10 == 0 {
 				_, serr := newVAgent(c, fmt.Sprintf("polbad%d", i), 1, "", ty, cond, "")
